@@ -47,6 +47,7 @@ class FnSpec:
         self.twin_subst = []
         self.drop_body = False
         self.split = []
+        self.aliases = []
 
 
 class FileSpec:
@@ -105,6 +106,10 @@ def parse_vspec(text, origin="<vspec>"):
             elif d == "@twin-subst":
                 a, b = arg.split("=>")
                 cur_fn.twin_subst.append((a.strip(), b.strip()))
+            elif d == "@alias":
+                # @alias <name used in this overlay> /regex with one group capturing the identifier in the source/
+                nm, rx_ = arg.strip().split(None, 1)
+                cur_fn.aliases.append((nm, rx_.strip()[1:-1]))
             elif d == "@drop-body":
                 cur_fn.drop_body = True
             elif d == "@split-at":
@@ -241,6 +246,22 @@ def annotate_file(src, fspec, relfile):
             fn_props[base] = fs.props
             item_s = toks[f.item_start].start
             item_e = toks[f.body_close].end if f.body_open is not None else toks[f.semi].end
+            # @alias: the overlay of this function names a local variable of the source; if the source calls it
+            # differently today (a rename), the overlay text (anchors and hints) is renamed accordingly
+            if fs.aliases and not getattr(fs, "_aliased", False):
+                body_ = src[item_s:item_e]
+                for nm, rx_ in fs.aliases:
+                    m_ = re.search(rx_, body_)
+                    if not m_:
+                        raise AnchorLost("%s: `%s`: alias /%s/ for `%s` not found" % (relfile, fs.path, rx_, nm))
+                    actual = m_.group(1)
+                    if actual != nm:
+                        pat_ = re.compile(r"(?<![A-Za-z0-9_])" + re.escape(nm) + r"(?![A-Za-z0-9_])")
+                        for b_ in fs.blocks:
+                            b_.arg = pat_.sub(actual, b_.arg)
+                            b_.lines = [pat_.sub(actual, l_) for l_ in b_.lines]
+                        fs.split = [pat_.sub(actual, x_) for x_ in fs.split]
+                fs._aliased = True
             for b in fs.blocks:
                 lines = _strip_blank(b.lines)
                 if b.kind == "attr":
